@@ -692,3 +692,23 @@ func init() {
 		},
 	})
 }
+
+func init() {
+	register(&PropDef{
+		ID:    "C15",
+		Title: "A failed evaluation leaves earlier definitions intact",
+		Explanation: "Decided: T1 transactional publication: in every declaration compiler (Decl*, methodDecl, Import) that writes the compiler's persistent registry (NewBind / NewFuncBind / methodAdd with a real name, stores into Binds or Types), either no step that can still fail follows the write (failure reachability computed over the statically resolved call graph: a function can fail if it reaches panic), or a rollback registered with defer before the write restores the previous definition while a flag is still armed and the flag is cleared on the normal path; " +
+			"T2 compile precedes run: ParseEvalPrint / Eval compile the whole input before RunExpr. " +
+			"Not decided: the redefinition sentence (old variables keep their type and readability), which depends on named-type identity in xreflect.",
+		Assumptions: []string{"calls through interfaces and function values are not followed by the failure-reachability analysis"},
+		Rules: []func(*Ctx){func(c *Ctx) {
+			ruleTransactionalDecls(c, "T1-transactional-decl")
+			ruleCompileBeforeRun(c, "T2-compile-before-run")
+		}},
+		Mutants: []Mutant{
+			{Name: "declfunc-rollback-removed", File: "fast/function.go", Old: "\t\t} else if oldbind != nil {\n\t\t\tc.Binds[funcname] = oldbind\n\t\t} else {\n\t\t\tdelete(c.Binds, funcname)\n\t\t}", New: "\t\t}", Canary: true},
+			{Name: "declconst-publishes-before-conversion", File: "fast/declaration.go", Old: "\tlit := Lit{Type: valueType, Value: value}\n\tif t == nil {\n\t\tt = lit.Type\n\t} else {\n\t\tvalue = lit.ConstTo(t)\n\t}\n\tbind := c.NewBind(name, ConstBind, t)\n", New: "\tlit := Lit{Type: valueType, Value: value}\n\tbind := c.NewBind(name, ConstBind, t)\n\tif t == nil {\n\t\tt = lit.Type\n\t} else {\n\t\tvalue = lit.ConstTo(t)\n\t}\n", Canary: true},
+			{Name: "declfunc-flag-never-cleared", File: "fast/function.go", Old: "\tc.Append(stmt, funcdecl.Pos())\n\tpanicking = false\n", New: "\tc.Append(stmt, funcdecl.Pos())\n"},
+		},
+	})
+}
